@@ -202,6 +202,10 @@ def withoutSection (r : Response) : Request → Response
 def attemptsOf (u : Request) (sent : List (Bytes × Bool)) : Nat :=
   (sent.filter fun p => p.1 == unitRequest u none).length
 
+/-- the attempts a unit plan consists of: the failed ones, and the one that is answered (if any) -/
+def UnitPlan.attempts (p : UnitPlan) : Nat :=
+  p.fails.length + (match p.ending with | .gaveUp => 0 | _ => 1)
+
 /-- no challenge of the exchange makes the challenged request look like the initial one (an empty challenge for
 `A2S_INFO`, `FFFFFFFF` for the other two) -/
 def freshChallenges (u : Request) (x : Exchange) : Bool :=
